@@ -313,3 +313,10 @@ package main
 //@          && (forall k string :: k != backendAddr(backend) ==> has(p.backends, k) == prev(has(p.backends, k)) && p.backends[k] == prev(p.backends[k]))
 //@     step other-action-ignored: $case == 1 && backendChangeEvent.action != "add" && backendChangeEvent.action != "remove" ==>
 //@          (forall k string :: has(p.backends, k) == prev(has(p.backends, k)) && p.backends[k] == prev(p.backends[k]))
+
+// ---- closures handed to other goroutines must own their captured variables ----
+// (no functional contract: these entries put the functions under the capture-stable obligations)
+//@ func (*UDPServerTransport).receiveMessage
+//@   props C07 C09 C10
+//@ func CreateRoundRobinBackend
+//@   props C19
